@@ -54,6 +54,8 @@ namespace mfuse
         virtual void GetValueAt(uintptr_t offset, void* value, size_t size) = 0;
         virtual void WriteOpcodeValue(const void* value, size_t size) = 0;
         virtual void AddSourcePos(const opval_t* code_pos, sourceLocation_t sourceLoc) = 0;
+        /** Whether this manager only measures (nothing is emitted, sizes of nested state scripts are not needed). */
+        virtual bool IsCounting() const { return false; }
 
         template<typename T>
         void WriteOpcodeValue(T value)
